@@ -46,6 +46,22 @@ class Reduction:
         self.rvars = rvars        # name -> z3 Int const
 
 
+def reduction_to_term(red: "Reduction"):
+    """The value of a Reduction object as a term: an uninterpreted reducer
+    applied to the bounds and the body as a lambda-term (the form nested
+    reductions take)."""
+    lam = as_int(red.body)
+    for name, _lo, _hi in reversed(red.bounds):
+        lam = z3.Lambda([red.rvars[name]], lam)
+    args = []
+    for _n, lo, hi in red.bounds:
+        args += [lo, hi]
+    sorts = [a.sort() for a in args] + [lam.sort()]
+    f = z3.Function(f"RED_{type(red.op).__name__}_{len(red.bounds)}",
+                    *sorts, z3.IntSort())
+    return f(*args, lam)
+
+
 class ArrayModel:
     """Maps array *objects* to uninterpreted functions / size-param ints."""
 
@@ -90,6 +106,8 @@ def uf(name, arity, out=None):
 
 
 def as_int(t):
+    if isinstance(t, Reduction):
+        return reduction_to_term(t)
     if z3.is_bool(t):
         return z3.If(t, z3.IntVal(1), z3.IntVal(0))
     return t
@@ -141,8 +159,10 @@ class Den:
         for name, (lo, hi) in expr.bounds.items():
             lo_t = as_int(self.rec(lo, env))
             hi_t = as_int(self.rec(hi, env))
-            v = z3.Int(f"{name}" if self._redn_depth == 0
-                       else f"{name}@{self._redn_depth}")
+            # canonical, depth-indexed names: z3 compares the *names* of
+            # lambda-bound variables, so alpha-equivalent reductions must be
+            # built with the same ones; depth-indexing avoids capture
+            v = z3.Int(f"rv@{self._redn_depth}#{len(rvars)}")
             if self._has_array_app(lo_t) or self._has_array_app(hi_t):
                 self.data_dependent_vars.append(v)
             rvars[name] = v
